@@ -23,6 +23,7 @@ func propC10(c *Ctx) {
 	c.ruleC10MacroRemoved()
 	c.ruleC10CopyReset()
 	c.ruleC10CopyIdentity()
+	c.ruleC11Table(c.Tables()) // where a PASTE may stand and what may stand under it: a row that lets a directive become the child of a PASTE makes it vanish with the expansion
 	c.rulePhaseConstructor()                  // the expansion pass looks at the directives, never at the text of the root file
 	c.ruleMemoCoverage("C10-MEMO-KEY-COVERS") // the copies of a pasted directive share its coordinates: a memo keyed by them confuses the copies
 	c.ruleC10RulesWithBody()
